@@ -9,8 +9,11 @@ if [ -z "$R" ]; then
 fi
 export PABU_REPO=$R
 miss=0
+# SHARD=i/n: only every n-th change, starting with the i-th (several shards can run side by side, each in its own snapshot)
+si=${SHARD%%/*}; sn=${SHARD##*/}; k=0
 for d in seeded/*/; do
   id=$(basename $d)
+  k=$((k+1)); if [ -n "${SHARD:-}" ] && [ $((k % sn)) -ne $((si % sn)) ]; then continue; fi
   p=${id%%-*}
   git -C $R checkout -q -- . 2>/dev/null
   if ! git -C $R apply "$(pwd)/$d/patch.diff" 2>/dev/null; then echo "$id PATCH-DOES-NOT-APPLY"; continue; fi
